@@ -316,6 +316,15 @@ func verifDir() string {
 	return "/verif"
 }
 
+// outDir is where evidence and replay files are written (VERIF_OUT, default the verif dir); mutant
+// runs point it elsewhere so that they never overwrite the evidence of the real tree.
+func outDir() string {
+	if d := os.Getenv("VERIF_OUT"); d != "" {
+		return d
+	}
+	return verifDir()
+}
+
 // Finish prints KNOWN-FINDING / VIOLATION lines, writes evidence and returns the exit code.
 func (r *Run) Finish(p *Property) int {
 	vd := verifDir()
@@ -361,11 +370,11 @@ func (r *Run) Finish(p *Property) int {
 			continue
 		}
 		violations++
-		dir := filepath.Join(vd, "replays", r.Prop)
+		dir := filepath.Join(outDir(), "replays", r.Prop)
 		os.MkdirAll(dir, 0o755)
 		path := filepath.Join(dir, fmt.Sprintf("%016x.json", Hash64([]byte(fullSig))))
 		rf := ReplayFile{Property: r.Prop, Scenario: fr.Scenario, Signature: fullSig, Message: fr.Msg, Case: fr.Case, Count: fr.Count,
-			Howto: "cd /verif && ./check " + r.Prop + " --replay " + path}
+			Howto: "cd " + vd + " && ./check " + r.Prop + " --replay " + path}
 		b, _ := json.MarshalIndent(rf, "", " ")
 		os.WriteFile(path, b, 0o644)
 		fmt.Printf("VIOLATION property=%s replay=%s\n    signature: %s\n    detail: %s\n    occurrences: %d\n", r.Prop, path, fullSig, fr.Msg, fr.Count)
@@ -469,7 +478,7 @@ func (r *Run) writeEvidence(p *Property, violations, knownHits int) error {
 	if err != nil {
 		return err
 	}
-	dir := filepath.Join(verifDir(), "evidence")
+	dir := filepath.Join(outDir(), "evidence")
 	os.MkdirAll(dir, 0o755)
 	return os.WriteFile(filepath.Join(dir, r.Prop+".json"), b, 0o644)
 }
